@@ -566,7 +566,7 @@ func checkC15(c *Ctx) {
 
 	// ---- C15-waitgroup: reuse the pairing / ordering rules
 	for _, sub := range []func(*Ctx){checkC08, checkC12} {
-		tmp := &Ctx{P: c.P, R: report.New("tmp"), Tier: c.Tier}
+		tmp := &Ctx{P: c.P, R: report.New("tmp"), Tier: c.Tier, Sub: true}
 		sub(tmp)
 		for _, o := range tmp.R.Obls {
 			if o.Rule == "C08-paired" || o.Rule == "C12-add-vs-wait" || (o.Rule == "C12-done-last" && strings.Contains(o.Construct, "connWg.Add")) {
@@ -584,7 +584,7 @@ func checkC15(c *Ctx) {
 	// ---- C15-guarded-object: the bufio.Writer behind ResponseWriter.writer / conn.writer is itself shared
 	// state: every method call on it must be made under the connection's writerMu (rules of C05)
 	{
-		tmp := &Ctx{P: c.P, R: report.New("tmp"), Tier: c.Tier}
+		tmp := &Ctx{P: c.P, R: report.New("tmp"), Tier: c.Tier, Sub: true}
 		checkC05(tmp)
 		for _, o := range tmp.R.Obls {
 			if o.Rule == "C05-owner" || o.Rule == "C05-locked" || (o.Rule == "C05-shared" && strings.Contains(o.Construct, "newResponseWriter")) {
